@@ -10,7 +10,7 @@ use std::sync::atomic::{AtomicBool, Ordering};
 use std::sync::RwLock;
 
 use chrono::Local;
-use log::{info, warn};
+use log::{error, info, warn};
 use once_cell::sync::OnceCell;
 #[cfg(feature = "s3")]
 use rusoto_core::Region;
@@ -1105,7 +1105,7 @@ impl OcflRepo {
             &inventory,
             &duplicates
                 .iter()
-                .map(|p| p.as_ref())
+                .map(|(_, p)| p.as_ref())
                 .collect::<Vec<&ContentPath>>(),
         )?;
         staging.rm_orphaned_files(&inventory)?;
@@ -1119,18 +1119,70 @@ impl OcflRepo {
                 staging.stage_object_declaration(&inventory)?;
 
                 let src_object_root = PathBuf::from(&inventory.storage_path);
-                self.store
-                    .write_new_object(&mut inventory, &src_object_root, object_root)?;
+                let result =
+                    self.store
+                        .write_new_object(&mut inventory, &src_object_root, object_root);
+                self.keep_staged_on_failure(result, staging, &mut inventory, duplicates)?;
             } else {
                 let version_root = paths::version_path(&inventory.storage_path, inventory.head);
-                self.store
-                    .write_new_version(&mut inventory, &version_root)?;
+                let result = self
+                    .store
+                    .write_new_version(&mut inventory, &version_root);
+                self.keep_staged_on_failure(result, staging, &mut inventory, duplicates)?;
             }
 
             staging.purge_object(object_id)?;
         }
 
         Ok(())
+    }
+
+    /// When the commit of a staged version is refused or fails, the version stays staged. The
+    /// staged files that were removed only because another staged file has the same content are
+    /// put back, so that every staged path has a file of its own again and can be removed or
+    /// replaced independently of the others.
+    fn keep_staged_on_failure(
+        &self,
+        result: Result<()>,
+        staging: &FsOcflStore,
+        inventory: &mut Inventory,
+        duplicates: Vec<(Rc<HexDigest>, Rc<ContentPath>)>,
+    ) -> Result<()> {
+        let error = match result {
+            Ok(()) => return Ok(()),
+            Err(e) => e,
+        };
+
+        let restore = || -> Result<()> {
+            let prefix = format!("{}/{}/", inventory.head, inventory.defaulted_content_dir());
+            let mut restored = false;
+
+            for (digest, removed) in duplicates {
+                let logical_path: LogicalPath = match removed.as_str().strip_prefix(&prefix) {
+                    Some(path) => path.try_into()?,
+                    None => continue,
+                };
+                if let Some(kept) = inventory.undo_dedup(digest, removed) {
+                    staging.copy_staged_file(inventory, &kept, &logical_path)?;
+                    restored = true;
+                }
+            }
+
+            if restored {
+                staging.stage_inventory(inventory, false, false)?;
+            }
+
+            Ok(())
+        };
+
+        if let Err(e) = restore() {
+            error!(
+                "Failed to restore the staged version of object {}: {}",
+                inventory.id, e
+            );
+        }
+
+        Err(error)
     }
 
     /// Attempts to get the inventory from staging. If it is not found, it is loaded from the
